@@ -56,6 +56,9 @@ fn arb_op(nprogs: usize) -> impl Strategy<Value = Op> {
         1 => (any::<u16>(), 0u8..3).prop_map(|(r, lane)| Op::Unlink { r, lane }),
         10 => (any::<u16>(), 0u8..3).prop_map(|(r, lane)| Op::Cmd { r, lane, body: String::new() }),
         3 => (any::<u16>(), 0..nprogs.max(1)).prop_map(|(r, p)| Op::Cmd { r, lane: 3, body: p.to_string() }),
+        // a remote may send garbage: a command whose body the lane rejects must not disturb anything else
+        1 => (any::<u16>(), 0u8..4, proptest::sample::select(vec!["not_a_number", "@bad", "1 2", "\"text\"", "{", "", "1.5", "99999999999999999999999"]))
+            .prop_map(|(r, lane, b)| Op::Cmd { r, lane, body: format!("\u{1}{}", b) }),
         12 => arb_sched_op(),
     ]
 }
@@ -88,7 +91,9 @@ fn arb_case(max_ops: usize) -> impl Strategy<Value = Case> {
             }
             for op in ops.iter_mut() {
                 if let Op::Cmd { lane, body, .. } = op {
-                    if *lane < 3 {
+                    if let Some(bad) = body.strip_prefix('\u{1}') {
+                        *body = bad.to_string();
+                    } else if *lane < 3 {
                         *body = next.to_string();
                         next += 1;
                     }
@@ -289,6 +294,10 @@ fn check(case: &Case) -> Verdict {
     v.class_if(sets >= 3, "sets>=3");
     v.class_if(obs.remotes.len() >= 2, "remotes>=2");
     v.class_if(case.flags.cascade_value, "cascade");
+    v.class_if(
+        case.ops.iter().any(|o| matches!(o, Op::Cmd { body, .. } if body.parse::<i64>().is_err())),
+        "malformed-command",
+    );
     v.class_if(obs.stopped, "agent-stopped");
     v.class_if(
         obs.trace.iter().any(|(_, e)| matches!(e, Ev::ProgBegin { .. })),
